@@ -9,8 +9,8 @@ use crate::{ensure, ensure_eq_bytes, pick};
 use vp_base::obj::*;
 use vp_base::tape::{self, Tape};
 
-pub const RULE: &str = "tape -> 16-byte cipher config (toy widths 1,2,3,4,5,8, encrypt-only toy, AES-128, BelT), key, IV random, D(2^128-j) so that s_0+i wraps, or D(x*2^64 + 2^64-1-j) so that the sum carries between 64-bit words, start position (block in {0, small, 2^8k+-2, random, near 2^128}, byte offset) reached by try_seek::<T> or set_block_pos, \
-<= 8 blocks of data in generated chunks and apply kinds; oracle = reference model, plus apply twice = identity; non-trivial = more than width \
+pub const RULE: &str = "tape -> 16-byte cipher config (toy widths 1,2,3,4,5,8, encrypt-only toy, AES-128, BelT), key, IV random, D(2^128-j) so that s_0+i wraps, or D(x*2^64 + 2^64-1-j) / D(x*2^64 + j) so that the sum carries between 64-bit words early / near block 2^64 and the end, any of the four constructors, start position (block in {0, small, 2^8k+-2, random, near 2^128}, byte offset) reached by try_seek::<T> or set_block_pos, \
+<= 8 blocks of data in generated chunks and apply kinds, or (whole blocks) through the block-level core with six call kinds incl. caller-supplied backend closures; oracle = reference model, plus apply twice = identity; non-trivial = more than width \
 blocks, or the sum wraps, or a non-zero start; distinct by hash of decoded values";
 
 pub fn check(ctx: &Ctx, t: &mut Tape<'_>, r: &mut Report) -> CheckResult {
@@ -28,7 +28,10 @@ pub fn check(ctx: &Ctx, t: &mut Tape<'_>, r: &mut Report) -> CheckResult {
     let low_word_carry = (96..160).contains(&ivclass) && suite.info.has_dec;
     if near_wrap || low_word_carry {
         // s_0 just below 2^128, or with its low 64-bit word just below 2^64 (carry between words)
-        let s0 = if near_wrap { u128::MAX - j } else { ((iv[0] as u128 * 0x0101_0101_0101_0101 + 7) << 64) | (u64::MAX as u128 - j) };
+        // (the low word just below 2^64: the sum carries between the 64-bit words early in the stream;
+        //  just above 0: it does so for block indices near 2^64 and 2^128, reached by seeking)
+        let low = if ivclass >= 128 || near_wrap { u64::MAX as u128 - j } else { j };
+        let s0 = if near_wrap { u128::MAX - j } else { ((iv[0] as u128 * 0x0101_0101_0101_0101 + 7) << 64) | low };
         let mut b = s0.to_le_bytes().to_vec();
         c.dec(&mut b);
         iv = b;
@@ -64,6 +67,37 @@ pub fn check(ctx: &Ctx, t: &mut Tape<'_>, r: &mut Report) -> CheckResult {
     r.label_if(blk >= 1 << 64, "index>=2^64");
     r.label_if(!suite.info.is_toy, "real-cipher");
     r.d(|| format!("{ty} key={} iv={} (s0={:#x}) start=(block {blk}, offset {off}) via {reach:?} len={len} cuts={} data={}", tape::hex_short(&key), tape::hex_short(&iv), model.s0, describe_cuts(&cuts), tape::hex_short(&data)));
+    // whole blocks from a block boundary are also driven through the block-level core directly, incl.
+    // caller-supplied closures that mix gen_ks_block / gen_par_ks_blocks / gen_tail_blocks in any order
+    // (read last so that older tapes keep their meaning)
+    let via_core = t.chance(56);
+    let mut sb = [0u8; 6];
+    for x in sb.iter_mut() {
+        *x = t.byte();
+    }
+    if via_core && off == 0 && len % bs == 0 {
+        r.label("core-level");
+        let mut core = f.make_core(how, &key, &iv).expect("harness: ctor");
+        core.set_block_pos(blk).ok_or_else(|| Violation { sig: format!("C06/not-seekable/{ty}"), msg: "core cannot be positioned".into() })?;
+        let mut out = Vec::new();
+        let mut o = 0;
+        for (i, cut) in cuts.iter().enumerate() {
+            let take = if i + 1 == cuts.len() { len - o } else { ((cut / bs) * bs).min(len - o) };
+            let inp = &data[o..o + take];
+            let mut ob = prefill(pre.0, pre.1 ^ i as u32, inp);
+            // the backend-schedule kind twice as often as each of the others
+            let ck = [CoreKind::Backend, CoreKind::ApplyBlockInout, CoreKind::ApplyBlocks, CoreKind::Backend, CoreKind::ApplyBlocksInout, CoreKind::WriteBlock, CoreKind::WriteBlocks][(sb[i % 6] as usize + i) % 7];
+            let mut sch = sb;
+            sch.rotate_left(i % 6);
+            core.process(ck, inp, &mut ob, &mut Sched::new(sch));
+            out.extend_from_slice(&ob);
+            o += take;
+        }
+        let want = model.apply_at(blk, 0, &data);
+        ensure_eq_bytes!(out, want, format!("C06/output-core/{}", f.core_type_name()), "{len} bytes from block {blk} through the block-level core, s0={:#x}", model.s0);
+        ensure!(core.get_block_pos() == Some(blk + (len / bs) as u128), format!("C06/block-pos/{}", f.core_type_name()), "core block position {:?} after {} blocks from {blk}", core.get_block_pos(), len / bs);
+        return Ok(());
+    }
     let mut s = position_stream(f, &model, &key, &iv, p, bs, reach, how, "C06")?;
     let out = run_stream(s.as_mut(), &data, &cuts, &kinds, pre).map_err(|v| with_sig("C06", &ty, v))?;
     let want = model.apply_at(blk, off, &data);
